@@ -8,6 +8,8 @@
                   contiguous run, n_min / n_max are its ends, bitmap and freq_index grow by the same amount on the
                   same side; align_grids pads by exactly (n_min - global min) / (global max - n_max).
  R3 grid        : frequency_to_n(nvalue_to_frequency(n)) = int(n): same anchor and granularity.
+ R5 common range: usable slots come from the pairwise intersection over every amplifier band list of THIS OMS, duplicates
+                  removed on whole-value equality only (shared with C07-R3).
  R4 OMS walk    : every element visited by the OMS walk of build_oms_list is recorded in the OMS and gets oms and
                   oms_id before the walk advances; reversed_oms pairs on swapped end uids; the map is built with the
                   same f_min / f_max / grid as the bitmap.
